@@ -319,9 +319,8 @@ def step_list(ctx, g, h, sh, rng):
         def fs(): del l[a:b]
         ri = call(g, fi); rs = call(g, fs); item = [10, ir, world.opt(a), world.opt(b)]
     elif m == "setitem":
-        kk = idx if 0 <= idx < n else (idx + n if -n <= idx < 0 else None)
-        if kk is not None and v in l and l[kk] != v:
-            return None          # D4 shape: dedicated stream
+        if l and rng.random() < 0.25:
+            v = rng.choice(l)          # a module this list already holds: it is moved to the position (not duplicated)
         desc = "n%d.modules[%d] = n%d" % (ir, idx, v)
         def fi(): ml[idx] = O[v]
         ri = call(g, fi)
@@ -329,14 +328,15 @@ def step_list(ctx, g, h, sh, rng):
             for ll in sh.lists.values():
                 if ll is not l and v in ll:
                     ll.remove(v)
-        def fs(): l[idx] = v
+        def fs(): assign_moved(l, idx, v)
         rs = call(g, fs); item = [11, ir, idx, v]
     elif m == "setslice":
         a, b = ob(), ob()
-        lo = worldgen._bound(world.opt(a), 0, n)
-        hi = max(lo, worldgen._bound(world.opt(b), n, n))
-        if any(x in l[:lo] + l[hi:] for x in vs):
-            return None          # D4 shape
+        if l and rng.random() < 0.25:
+            vs = list(vs)
+            vs.insert(rng.randrange(len(vs) + 1), rng.choice(l))       # one the list holds already (inside or outside the slice)
+        if vs and rng.random() < 0.2:
+            vs = list(vs) + [rng.choice(vs)]                           # one named twice
         step1 = rng.random() < 0.3          # an explicit step of 1 is an ordinary slice for list
         desc = "n%d.modules[%s:%s%s] = %s" % (ir, a, b, ":1" if step1 else "", vs)
         def fi():
@@ -350,7 +350,7 @@ def step_list(ctx, g, h, sh, rng):
                 for x in vs:
                     if x in ll:
                         ll.remove(x)
-        def fs(): l[a:b] = vs
+        def fs(): assign_moved(l, slice(a, b), vs)
         rs = call(g, fs); item = [12, ir, world.opt(a), world.opt(b), vs]
     elif m == "clear":
         desc = "n%d.modules.clear()" % ir
@@ -490,9 +490,24 @@ def step_dict(ctx, g, h, sh, rng):
     elif m == "clear":
         ri, rs = call(g, d.clear), call(g, s.clear); item = [25, bi]
     elif m == "assign":
-        def fi(): w.obj[bi].symbolic_expressions = {a: E(b) for a, b in kvs.items()}
+        r = rng.random()
+        others = [b2 for b2 in h.by_kind["ByteInterval"] if b2 != bi and sh.dicts[b2]]
+        if r < 0.2 and s:
+            # the value is this very mapping (x.symbolic_expressions = x.symbolic_expressions): nothing changes
+            ctx.count("dict.assign:own-live-mapping")
+            kvs = dict(s)
+            def fi(): w.obj[bi].symbolic_expressions = w.obj[bi].symbolic_expressions
+        elif r < 0.4 and others:
+            # another interval's live mapping: its content is copied, the other interval keeps it
+            src = rng.choice(others)
+            ctx.count("dict.assign:another-live-mapping")
+            kvs = dict(sh.dicts[src])
+            def fi(): w.obj[bi].symbolic_expressions = w.obj[src].symbolic_expressions
+        else:
+            def fi(): w.obj[bi].symbolic_expressions = {a: E(b) for a, b in kvs.items()}
         def fs():
-            s.clear(); s.update(kvs)
+            new = dict(kvs)
+            s.clear(); s.update(new)
         ri, rs = call(g, fi), call(g, fs); item = [26, bi, [[a, b] for a, b in kvs.items()]]
     else:
         fns = {
@@ -770,6 +785,36 @@ def iterators_follow_the_collection(ctx, g):
     ctx.case("live-iterators", True)
 
 
+class Idx:
+    """an index object in the sense of PEP 357: it has __index__ and nothing else (no arithmetic, no comparison)"""
+    def __init__(self, v):
+        self.v = v
+
+    def __index__(self):
+        return self.v
+
+    def __repr__(self):
+        return "Idx(%d)" % self.v
+
+
+def assign_moved(l, key, value):
+    """the shadow's item / slice assignment when the values may already be in the list or repeat: list's own placement (and its
+    own errors), then every value just assigned is kept at the last position it was assigned to only -- 'a node inserted while
+    owned elsewhere is moved rather than duplicated', here with 'elsewhere' being this very list"""
+    import operator
+    new = list(l)
+    if isinstance(key, slice):
+        vals = list(value)
+        idxs = range(*key.indices(len(l)))
+        new[key] = vals
+        assigned = idxs if idxs.step != 1 else range(idxs.start, idxs.start + len(vals))
+    else:
+        new[key] = value
+        assigned = [operator.index(key) % len(l)]
+    last = {new[p]: p for p in assigned}
+    l[:] = [x for p, x in enumerate(new) if last.get(x, p) == p]
+
+
 def exhaustive_small_list(ctx, g):
     """Every index / bound / slice argument in -4..4 (and None) on a three-module list, each mutating call on a fresh IR: the index
     arithmetic of ir.modules against the built-in list, deterministically on every run.  After a mutating call the ownership of
@@ -840,6 +885,54 @@ def exhaustive_small_list(ctx, g):
                 else:
                     ri, rs = outcome(lambda: ir.modules.__setitem__(sl, [extra])), outcome(lambda: l.__setitem__(sl, [3]))
                 judge("%s[%s:%s]" % (name, i, j), ri, rs, ir, ms, extra, l)
+    # index OBJECTS (anything with __index__ is an index for the built-in): every place that takes an index or a slice part
+    for v in (0, 1, -1, 2, 3, -4, 1 << 63):
+        for name in ("insert", "pop", "del", "setitem", "getitem", "index-start", "index-stop", "getslice", "setslice-step1", "delslice"):
+            ir, ms, extra, l = fresh()
+            allm = ms + [extra]
+            i = Idx(v)
+            if name == "insert":
+                ri, rs = outcome(lambda: ir.modules.insert(i, extra)), outcome(lambda: l.insert(i, 3))
+            elif name == "pop":
+                ri, rs = outcome(lambda: allm.index(ir.modules.pop(i))), outcome(lambda: l.pop(i))
+            elif name == "del":
+                ri, rs = outcome(lambda: ir.modules.__delitem__(i)), outcome(lambda: l.__delitem__(i))
+            elif name == "setitem":
+                ri, rs = outcome(lambda: ir.modules.__setitem__(i, extra)), outcome(lambda: l.__setitem__(i, 3))
+            elif name == "getitem":
+                ri, rs = outcome(lambda: allm.index(ir.modules[i])), outcome(lambda: l[i])
+            elif name == "index-start":
+                ri, rs = outcome(lambda: ir.modules.index(ms[1], i)), outcome(lambda: l.index(1, i))
+            elif name == "index-stop":
+                ri, rs = outcome(lambda: ir.modules.index(ms[1], 0, i)), outcome(lambda: l.index(1, 0, i))
+            elif name == "getslice":
+                ri, rs = outcome(lambda: [allm.index(y) for y in ir.modules[i:Idx(3):Idx(1)]]), outcome(lambda: l[i:Idx(3):Idx(1)])
+            elif name == "setslice-step1":
+                # (a step that CONVERTS to 1 makes an ordinary, resizing slice)
+                ri, rs = outcome(lambda: ir.modules.__setitem__(slice(i, Idx(2), Idx(1)), [extra])), outcome(lambda: l.__setitem__(slice(i, Idx(2), Idx(1)), [3]))
+            else:
+                ri, rs = outcome(lambda: ir.modules.__delitem__(slice(i, Idx(2)))), outcome(lambda: l.__delitem__(slice(i, Idx(2))))
+            judge("%s(%r)" % (name, i), ri, rs, ir, ms, extra, l)
+    # values the list already holds, and values named more than once: moved, not duplicated -- kept at the last position assigned
+    for k in range(3):
+        for i in R:
+            ir, ms, extra, l = fresh()
+            ri, rs = outcome(lambda: ir.modules.__setitem__(i, ms[k])), outcome(lambda: assign_moved(l, i, k))
+            judge("[%d] = m%d (a member)" % (i, k), ri, rs, ir, ms, extra, l)
+    RHS = [[0], [2], [0, 3], [3, 3], [1, 3, 1], [2, 1, 0], [0, 0, 0], [3, 0, 3, 0]]
+    for i in list(R) + [None]:
+        for j in list(R) + [None]:
+            for rhs in RHS:
+                ir, ms, extra, l = fresh()
+                allm = ms + [extra]
+                ri, rs = outcome(lambda: ir.modules.__setitem__(slice(i, j), [allm[x] for x in rhs])), outcome(lambda: assign_moved(l, slice(i, j), rhs))
+                judge("[%s:%s] = %s (members / repeated values)" % (i, j, rhs), ri, rs, ir, ms, extra, l)
+    for sl in (slice(None, None, 2), slice(None, None, -1), slice(2, None, -2), slice(0, 3, 2), slice(1, None, 3)):
+        for rhs in ([2, 0], [0, 0], [3, 3], [1, 2, 0], [2, 1, 0], [3, 0, 3], [1], [0], [3]):
+            ir, ms, extra, l = fresh()
+            allm = ms + [extra]
+            ri, rs = outcome(lambda: ir.modules.__setitem__(sl, [allm[x] for x in rhs])), outcome(lambda: assign_moved(l, sl, rhs))
+            judge("[%s:%s:%s] = %s (members / repeated values)" % (sl.start, sl.stop, sl.step, rhs), ri, rs, ir, ms, extra, l)
     # a right-hand side that is no iterable at all: the built-in raises TypeError and changes nothing
     for rhs_name in ("a module", "None", "5"):
         for sl in (slice(0, 1), slice(None, None), slice(0, 3, 2)):
